@@ -1,4 +1,4 @@
-import Pds.Proofs.KernelTie.Merge
+import Pds.Proofs.KernelTie.MergeCms
 import Pds.Proofs.KernelTie.HashIter
 import Pds.Proofs.KernelTie.CmsOps
 /-!
